@@ -374,6 +374,24 @@ Definition l0_indented (l : list N) (n ch : N) : list N :=
   else let pad := repN ch n in
        indent_fold pad false l (if (nthN 0 l =? 13) || (nthN 0 l =? 10) then pad else []).
 
+(* WithCharsEscaped(charsToEscape, escapeChar) *)
+Definition is_sep (seps : list N) (c : N) : bool := existsb (N.eqb c) seps.
+Fixpoint count_if (p : N -> bool) (l : list N) : N :=
+  match l with [] => 0 | x :: t => (if p x then 1 else 0) + count_if p t end.
+Fixpoint esc_fold (seps : list N) (esc : N) (prevEsc : bool) (prevCh : N) (l acc : list N) : list N :=
+  match l with
+  | [] => acc
+  | cur :: t =>
+    let next := nthN 0 t in
+    let pre := negb prevEsc &&
+               (is_sep seps cur || ((cur =? esc) && negb (next =? 0) && negb (next =? esc) && negb (is_sep seps next))) in
+    esc_fold seps esc ((cur =? esc) && negb (prevCh =? esc)) cur t ((if pre then acc ++ [esc] else acc) ++ [cur])
+  end.
+Definition l0_escaped (l seps : list N) (esc : N) : list N :=
+  if esc =? 0 then l
+  else if (count_if (is_sep seps) l =? 0) && (count_ch esc l =? 0) then l
+  else esc_fold seps esc false 0 l [].
+
 Definition l0_padded (l : list N) (minLen : N) (right : bool) (ch : N) : list N :=
   if (lenN l <? minLen) && negb (ch =? 0)
   then (if right then l ++ repN ch (minLen - lenN l) else repN ch (minLen - lenN l) ++ l)
